@@ -9,7 +9,7 @@
 import KB.Lemmas.SysStore
 import KB.Props.C02
 namespace KB.C01
-open KB
+open KB KB.SysStore
 
 /-- The last applied write to `k` before position `i` of the log. -/
 def predecessor (l : List WLog) (i : Nat) (k : Bytes) : Option WLog :=
@@ -29,30 +29,43 @@ def ChainAt (g0 : G) (l : List WLog) (i : Nat) (w : WLog) : Prop :=
 
 /-- For every key the applied creates, updates and deletes form one chain in revision order: each
 update / guarded delete (and each rewrite) named exactly the revision written by its predecessor and
-each create found the key absent or deleted. -/
+each create found the key absent or deleted.
+`hb`: revisions are uint64 in the implementation; past `2 ^ 64` the 8-byte index record wraps and the
+property is false (`KB.SysStore.index_agrees_needs_bound` is a proved witness for `index_agrees`). -/
 theorem chain {g0 g : G} (h0 : C02.Init g0) (hs : C02.StoreOK g0) (hr : Reachable g0 g)
-    (i : Nat) (w : WLog) (hw : g.wlog[i]? = some w) : ChainAt g0 g.wlog i w := by
-  sorry
+    (hb : g.dealt < 2 ^ 64)
+    (i : Nat) (w : WLog) (hw : g.wlog[i]? = some w) : ChainAt g0 g.wlog i w :=
+  (SInv.reachable h0 hs hr).core.chain hb i w hw
 
 /-- Two writers conditioned on the same revision of the same key never both succeed. -/
 theorem no_double_success {g0 g : G} (h0 : C02.Init g0) (hs : C02.StoreOK g0) (hr : Reachable g0 g)
+    (hb : g.dealt < 2 ^ 64)
     (i j : Nat) (wi wj : WLog) (hi : g.wlog[i]? = some wi) (hj : g.wlog[j]? = some wj) (hij : i < j)
-    (hk : wi.key = wj.key) (e : Nat) (hei : wi.exp = .rev e) (hej : wj.exp = .rev e) : False := by
-  sorry
+    (hk : wi.key = wj.key) (e : Nat) (hei : wi.exp = .rev e) (hej : wj.exp = .rev e) : False :=
+  chain_no_double ((SInv.reachable h0 hs hr).core.chain hb) i j wi wj hi hj hij hk e hei hej
 
 /-- A step that applies no batch leaves the whole store unchanged: in particular every request that
 ends in a failed condition or an error (not "unknown outcome, applied") left its key unchanged. -/
 theorem failed_leaves_unchanged (g : G) (a : Action) (h : (act g a).wlog = g.wlog) :
-    (act g a).store = g.store := by
-  sorry
+    (act g a).store = g.store :=
+  act_store_of_wlog g a h
 
 /-- The index record is the optimistic lock: in every reachable state the index record of a key
 written during the run holds exactly the revision (and deletion flag) of the last applied write. -/
 theorem index_agrees {g0 g : G} (h0 : C02.Init g0) (hs : C02.StoreOK g0) (hr : Reachable g0 g)
+    (hb : g.dealt < 2 ^ 64)
     (w : WLog) (hw : (g.wlog.filter (fun x => x.key == w.key)).getLast? = some w) :
     (g.store.get (idxKey w.key)).bind parseRevision = some (w.rev, w.val.isNone) ∧
     g.store.get (encode w.key w.rev) = some (w.val.getD Generated.tombstone) := by
-  sorry
+  have h := SInv.reachable h0 hs hr
+  have hi := h.core.idx hb w.key
+  have hl : lastW g.wlog w.key = some w := hw
+  rw [hl] at hi
+  simp only [IdxOK] at hi
+  have hrev := (h.core.revs w (lastW_some hl).1).2
+  refine ⟨?_, hi.2⟩
+  rw [hi.1]
+  exact parseRevision_be8_flag (by omega) w.val
 
 /-- A condition is reported failed by a guarded update / delete only when the engine's
 compare-and-swap really found the index different from the expectation at that step
@@ -60,7 +73,11 @@ compare-and-swap really found the index different from the expectation at that s
 theorem cas_conflict_justified (q : Quirks) (s : Store) (k new old : Bytes) (rest : List BOp)
     (idx : Option Nat) (v : Option Bytes) (h : commit q s (.cas k new old :: rest) = .error (.conflict idx v))
     (hidx : idx = some (0 + q.idxOffset)) : s.get k ≠ some old := by
-  sorry
+  intro hget
+  subst hidx
+  simp only [commit, applyOps, applyOp, hget, if_true] at h
+  have := applyOps_conflict_idx h
+  omega
 
 /-! Non-vacuity: two updates conditioned on the same revision race; exactly one is applied. -/
 def ex0 : G :=
@@ -75,5 +92,13 @@ example : ((run ex0 exSched).wlog.map (fun w => (w.rev, w.exp))) = [(1003, .rev 
 set_option maxRecDepth 100000 in
 example : ((run ex0 exSched).done.map (fun d => (d.id, d.res))) =
     [(2, .ok 1003), (1, .condFailed 1003 (some ([47, 97], [3], 1003)))] := by decide
+
+/-! Non-vacuity of the rewrite case: a delete applied with unknown outcome is rewritten by the retry loop;
+the rewrite is conditioned on (and chained to) the delete itself, both logged as deletions. -/
+def exSchedRetry : List Action :=
+  [ .begin 1 (.delete [47, 97] 1001), .step 1 .none, .step 1 .none, .step 1 .uncApplied, .seq, .retry .none ]
+set_option maxRecDepth 100000 in
+example : ((run ex0 exSchedRetry).wlog.map (fun w => (w.rev, w.val, w.exp))) =
+    [(1002, none, .rev 1001), (1003, none, .rev 1002)] := by decide
 
 end KB.C01
